@@ -67,13 +67,26 @@ Definition step_old (bs : Z) (s : sst) (c : call) : sst * res :=
      else (mkS false (s_nc s + (c_size c - c_pos c)) (c_src c) (c_size c), Read (c_src c) (c_src c)))
   else consume bs s c.
 
-Fixpoint srun (bs : Z) (s : sst) (cs : list call) : sst :=
-  match cs with [] => s | c :: t => srun bs (fst (step bs s c)) t end.
+(* ZSTD_CCtx_reset(session_only) (since 177647f it also forgets the deferred input); expectedInBuffer is left as it is *)
+Definition sreset (s : sst) : sst := mkS false 0 (s_esrc s) (s_epos s).
 
-(* trace for the lock-step: per call accepted?, lo - src, hi - src *)
-Fixpoint strace (old : bool) (bs : Z) (s : sst) (cs : list call) : list Z :=
-  match cs with
+(* what a caller does: streaming calls and session resets *)
+Inductive sop : Type := SCall (c : call) | SReset.
+Definition ostep (bs : Z) (s : sst) (o : sop) : sst * res :=
+  match o with SCall c => step bs s c | SReset => (sreset s, Refused) end.
+Definition ostep_old (bs : Z) (s : sst) (o : sop) : sst * res :=
+  match o with SCall c => step_old bs s c | SReset => (sreset s, Refused) end.
+
+Fixpoint srun (bs : Z) (s : sst) (os : list sop) : sst :=
+  match os with [] => s | o :: t => srun bs (fst (ostep bs s o)) t end.
+
+(* trace for the lock-step: per operation accepted?, lo - src, hi - src, streamStage != init, stableIn_notConsumed *)
+Definition zbool (b : bool) : Z := if b then 1 else 0.
+Fixpoint strace (old : bool) (bs : Z) (s : sst) (os : list sop) : list Z :=
+  match os with
   | [] => []
-  | c :: t => let r := if old then step_old bs s c else step bs s c in
-              (match snd r with Refused => [0; 0; 0] | Read lo hi => [1; lo - c_src c; hi - c_src c] end) ++ strace old bs (fst r) t
+  | o :: t => let r := if old then ostep_old bs s o else ostep bs s o in
+              let src := match o with SCall c => c_src c | SReset => 0 end in
+              (match snd r with Refused => [0; 0; 0] | Read lo hi => [1; lo - src; hi - src] end)
+              ++ [zbool (s_open (fst r)); s_nc (fst r)] ++ strace old bs (fst r) t
   end.
